@@ -24,6 +24,8 @@ RULE = (
     'count > n; after the consumer has left (normally, by break, or struck) no activity logs '
     'anything. non-trivial = >= 2 activities; distinct = activation trace'
 )
+RULE = RULE + (' Further scenarios: the same awaitable given several times, calls made from clean-up code of a cancelled caller (a struck caller leaves in that time step), privileged failures always end collect(), join failures in first(), falsy failures.')
+
 LEVEL_TEXT = (
     'Fault enumeration by runtime monitoring: results, yield times and the abort of the losers '
     'are checked against a sort-by-completion model for generated activity sets and consumer '
